@@ -375,7 +375,7 @@ fn episode_inner(ctx: &Ctx, out: &mut Outcome, run_seed: u64, rr: &mut Rng, budg
             }
             64..=81 => {
                 // responses that are not valid for this server / address
-                let which = r.below(8);
+                let which = r.below(9);
                 // an address with neither a session nor a half-open entry (for replays of used responses)
                 let conn_now = connected_addrs(&srv);
                 let replay_from = pool.iter().copied().find(|p| !is_pending(&srv, *p) && !conn_now.contains(p));
@@ -396,6 +396,13 @@ fn episode_inner(ctx: &Ctx, out: &mut Outcome, run_seed: u64, rr: &mut Rng, budg
                     }
                     1 => (mk(ts ^ (1 << r.below(8)), blob, &key), "response-wrong-token-sequence"),
                     2 => (mk(ts, blob, &other_key(&key)), "response-wrong-key"),
+                    8 if pend_tok.is_some() => {
+                        // everything a valid response carries - the issued challenge, the right key, the half-open address -
+                        // but sealed as another packet type (a challenge has the very same layout): not a response
+                        out.count("response_body_sealed_as_another_packet_type");
+                        let d = OPacket::Challenge { token_sequence: ts, token_data: blob }.encode(protocol, Some((seq, &key))).unwrap_or_default();
+                        (d, "response-sealed-as-challenge-type")
+                    }
                     3 => {
                         // a challenge issued by another server instance for the same token
                         let id = r.next_u64();
